@@ -18,7 +18,8 @@ RULE = ("Cases = (op, matrix, parameter, copy flag). threshold_proportional: non
         "float matrices, thr on/off the weight grid. Oracle = exact-rational count round_half_up(p*possible), strongest-k predicate "
         "(min kept >= max dropped; any tie-break accepted), value/identity predicates for copy. Non-trivial = (proportional) a tie straddles "
         "the cut, p*possible is exactly a half-integer, or fewer connections exist than requested; (absolute) some entry equals thr exactly; "
-        "(others) matrix has negative and zero entries. Distinct by hash of the case.")
+        "(absolute, also) some entry within 1e-9 relative of thr (thr one ulp / 1e-12 / 1e-10 relative away from a weight); "
+        "whole matrix (and grid thr) multiplied by a power of two in 2^-400..2^400; (others) matrix has negative and zero entries. Distinct by hash of the case.")
 BOUNDS = {"n": "2..8", "p": "dyadic a/2^m (m<=6) and a/b (b<=40)", "weights": "k/4 (proportional), +-k/8 and floats (others)"}
 # units additionally driven by libFuzzer coverage feedback through hypothesis.fuzz_one_input (bctverif/fuzz.py)
 FUZZ_UNITS = {"quick": ["threshold_proportional", "other-utilities"], "thorough": ["threshold_proportional", "other-utilities"]}
@@ -154,6 +155,9 @@ def check(case, ctx):
         if np.any((W == thr) & off):
             ctx.mark_nontrivial(case)
             ctx.label("entry-equals-thr")
+        elif np.any(off & (W != thr) & (np.abs(W - thr) <= 1e-9 * abs(thr))):
+            ctx.mark_nontrivial(case)
+            ctx.label("entry-within-1e-9-of-thr")
         return fails
 
     interesting = bool(np.any(W < 0) and np.any(W == 0) and np.any(W > 0))
@@ -218,6 +222,7 @@ def prop_cases(draw):
         d = draw(st.lists(st.integers(0, 4), min_size=n, max_size=n))
         for i, v in enumerate(d):
             W[i, i] = v / 4.0
+    W = W * draw(st.sampled_from([1.0, 1.0] + gen.POW2_SCALES))       # ranking of weights does not depend on the unit
     kind = draw(st.sampled_from(["dyadic", "dyadic", "half", "rational", "edge", "bad"]))
     possible = n * (n - 1) // 2 if sym else n * (n - 1)
     dyadic = False
@@ -256,9 +261,21 @@ def other_cases(draw):
         d = draw(st.lists(st.integers(-4, 4), min_size=n, max_size=n))
         for i, v in enumerate(d):
             W[i, i] = v / 8.0
+    # the whole matrix in another unit (exact for dyadic weights): nothing here may depend on an absolute magnitude
+    scale = draw(st.sampled_from([1.0, 1.0] + gen.POW2_SCALES + [2.0 ** 60]))
+    W = W * scale
     case = {"op": op, "W": W, "order": draw(st.sampled_from(gen.ORDERS))}
     if op == "absolute":
-        case["thr"] = draw(st.sampled_from([0.0, 0.125, 0.25, 0.5, 0.75, 1.0, -0.25, -0.5, 0.3, 0.6]))
+        thr = draw(st.sampled_from([0.0, 0.125, 0.25, 0.5, 0.75, 1.0, -0.25, -0.5, 0.3, 0.6])) * scale
+        offw = W[~np.eye(n, dtype=bool)]
+        offw = offw[offw != 0]
+        how = draw(st.sampled_from(["next-up", "grid", "grid", "next-down", "rel+1e-12", "rel-1e-12", "equal", "rel+1e-10"]))
+        if how != "grid" and len(offw):
+            # a threshold a hair away from (or exactly at) one of the weights: "not below" is an exact comparison
+            w = float(offw[draw(st.integers(0, len(offw) - 1))])
+            thr = {"next-up": float(np.nextafter(w, np.inf)), "next-down": float(np.nextafter(w, -np.inf)), "equal": w,
+                   "rel+1e-12": w + abs(w) * 1e-12, "rel-1e-12": w - abs(w) * 1e-12, "rel+1e-10": w + abs(w) * 1e-10}[how]
+        case["thr"] = thr
     return case
 
 
